@@ -1,13 +1,16 @@
-import Vflow.Proofs.FuelIpfix
-import Vflow.Proofs.FuelV9
+import Vflow.Proofs.AllocIpfix
+import Vflow.Proofs.AllocV9
 /-!
 # C02 (model part, IPFIX and NetFlow v9) — termination with the supplied fuel, record bound
 
 `decode` hands `bs.length + 1` units of fuel to the set loop (`outer`) and `rem.length + 1` to every
 record loop (`setLoop`).  The theorems say that this is always enough — the model never answers
 `fuel`, i.e. (through the differential correspondence) the Go decoder terminates on every datagram,
-for every content of the template cache — and that the number of decoded records is bounded by the
-datagram length.  All statements quantify over every cache `c`, every exporter address `addr` and
+for every content of the template cache — that the number of decoded records is bounded by the
+datagram length, and that templates and records cannot have more fields than a bound `K` on the
+cached templates' sizes and a quarter of the datagram length (allocation bound: total decoded fields
+≤ `bs.length * K`).  Not covered: the octets held by the decoded values (each value is a slice of the
+datagram; no theorem here).  All statements quantify over every cache `c`, every exporter address `addr` and
 every octet string `bs`.
 -/
 namespace Vflow.C02Flow
@@ -35,6 +38,34 @@ theorem ipfix_setLoop_fuel (ctx : Ipfix.Ctx) (fuel : Nat) (st : Ipfix.St)
   have := Ipfix.setLoop_fuel ctx fuel st _ _ _ h rfl
   exact ⟨this.1, this.2.2⟩
 
+/-- **C02 template size (IPFIX)**: a template record parsed from a datagram consumed at least
+4 + 4 × (number of its specifiers) octets of it — a template never has more than a quarter of the
+datagram's length in specifiers. -/
+theorem ipfix_template_size (r r' : Rd) (t : Template) (h : Ipfix.parseTpl r = (.ok t, r')) :
+    r.cnt + 4 + 4 * (t.scope.length + t.fields.length) ≤ r'.cnt ∧
+    r'.cnt + r'.rem.length = r.cnt + r.rem.length :=
+  ⟨(Ipfix.parseTpl_adv h).2 t rfl, (Ipfix.parseTpl_adv h).1.1⟩
+
+theorem ipfix_optTemplate_size (r r' : Rd) (t : Template) (h : Ipfix.parseOptTpl r = (.ok t, r')) :
+    r.cnt + 4 + 4 * (t.scope.length + t.fields.length) ≤ r'.cnt ∧
+    r'.cnt + r'.rem.length = r.cnt + r.rem.length :=
+  ⟨(Ipfix.parseOptTpl_adv h).2 t rfl, (Ipfix.parseOptTpl_adv h).1.1⟩
+
+/-- **C02 allocation bound (IPFIX)**: let `K` bound the specifier count of every template in the cache
+before the datagram and let `bs.length / 4 ≤ K`.  Then every template in the cache afterwards has at
+most `K` specifiers (those parsed from this datagram have at most `bs.length / 4`), every decoded
+record has at most `K` fields, and the total number of decoded fields is at most `bs.length * K`. -/
+theorem ipfix_alloc_bound (c : Cache) (addr bs : Bytes) (K : Nat)
+    (hc : ∀ e ∈ c, e.2.scope.length + e.2.fields.length ≤ K) (hK : bs.length / 4 ≤ K) :
+    (∀ e ∈ (Ipfix.decode c addr bs).2, e.2.scope.length + e.2.fields.length ≤ K) ∧
+    (∀ r ∈ Ipfix.recordsOf (Ipfix.decode c addr bs).1, r.length ≤ K) ∧
+    ((Ipfix.recordsOf (Ipfix.decode c addr bs).1).map List.length).sum ≤ bs.length * K := by
+  have h := Ipfix.decode_alloc c addr bs K hc hK
+  refine ⟨h.1, h.2, ?_⟩
+  have h1 := Ipfix.fieldCount_le K _ h.2
+  have h2 := ipfix_record_bound c addr bs
+  exact Nat.le_trans h1 (Nat.mul_le_mul_right K h2)
+
 /-! ## NetFlow v9 -/
 
 /-- **C02 termination (NetFlow v9)**: the fuel supplied by `decode` always suffices. -/
@@ -54,6 +85,28 @@ theorem v9_setLoop_fuel (ctx : V9.Ctx) (fuel : Nat) (st : V9.St)
       ≤ st.recs.length + st.r.rem.length := by
   have := V9.setLoop_fuel ctx fuel st _ _ h rfl
   exact ⟨this.1, this.2.2⟩
+
+theorem v9_template_size (r r' : Rd) (t : Template) (h : V9.parseTpl r = (.ok t, r')) :
+    r.cnt + 4 + 4 * (t.scope.length + t.fields.length) ≤ r'.cnt ∧
+    r'.cnt + r'.rem.length = r.cnt + r.rem.length :=
+  ⟨(V9.parseTpl_adv h).2 t rfl, (V9.parseTpl_adv h).1.1⟩
+
+theorem v9_optTemplate_size (r r' : Rd) (t : Template) (h : V9.parseOptTpl r = (.ok t, r')) :
+    r.cnt + 4 + 4 * (t.scope.length + t.fields.length) ≤ r'.cnt ∧
+    r'.cnt + r'.rem.length = r.cnt + r.rem.length :=
+  ⟨(V9.parseOptTpl_adv h).2 t rfl, (V9.parseOptTpl_adv h).1.1⟩
+
+/-- **C02 allocation bound (NetFlow v9)**, as for IPFIX -/
+theorem v9_alloc_bound (c : Cache) (addr bs : Bytes) (K : Nat)
+    (hc : ∀ e ∈ c, e.2.scope.length + e.2.fields.length ≤ K) (hK : bs.length / 4 ≤ K) :
+    (∀ e ∈ (V9.decode c addr bs).2, e.2.scope.length + e.2.fields.length ≤ K) ∧
+    (∀ r ∈ V9.recordsOf (V9.decode c addr bs).1, r.length ≤ K) ∧
+    ((V9.recordsOf (V9.decode c addr bs).1).map List.length).sum ≤ bs.length * K := by
+  have h := V9.decode_alloc c addr bs K hc hK
+  refine ⟨h.1, h.2, ?_⟩
+  have h1 := V9.fieldCount_le K _ h.2
+  have h2 := v9_record_bound c addr bs
+  exact Nat.le_trans h1 (Nat.mul_le_mul_right K h2)
 
 /-! ## Non-vacuity: the zero-length-record datagrams (the F2 hang before the repair)
 
